@@ -17,7 +17,7 @@ from .. import nets, ops, oracles
 from . import c08, c22
 
 PROPERTY = "C20"
-BUDGET = {"quick": 500, "thorough": 15000}
+BUDGET = {"quick": 320, "thorough": 15000}
 WALL_CAP = {"quick": 150, "thorough": 1500}
 RULE = ("Episodes = small net decorated with controllers, groups, costs, measurements, tap tables, user options, "
         "custom columns and non-contiguous indices + 8-25 seeded ops (edits, calculations, toolbox edits) with "
